@@ -557,13 +557,22 @@ pub fn check_ids_orbits(s: &State, q: &Queries, darts: &[u32], probe_n: &mut u64
 }
 
 /// Is the cell (given as its dart set) closed for the purposes of the linear policies: every
-/// generator of the policy is defined on every dart of the cell.
+/// forward generator of the linear policy is defined (non-null) on every dart of the cell. Total
+/// injective self-maps of a finite set are permutations, so the forward closure then equals the
+/// orbit under generators and inverses, which is what the statement claims "on closed cells". A
+/// generator that is null on the *whole* cell (beta3 on an unglued face) is simply absent.
 fn cell_is_closed(s: &State, o: u8, cell: &[u32]) -> bool {
-    cell.iter().all(|&d| match (s.dim, o) {
-        (2, 0) => s.b(2, d) != 0 && s.b(1, s.b(2, d)) != 0 && s.b(0, d) != 0,
-        (_, 2) => s.b(1, d) != 0 && (s.dim == 2 || s.b(3, d) != 0 || cell.iter().all(|&x| s.b(3, x) == 0)),
-        (3, 0) => s.b(2, d) != 0 && s.b(3, d) != 0 && s.b(1, d) != 0 && s.b(0, d) != 0,
-        (3, 3) => s.b(1, d) != 0 && s.b(2, d) != 0,
-        _ => true,
+    let b = |i: u8, x: u32| if x == 0 { 0 } else { s.b(i, x) };
+    let gens: Vec<Box<dyn Fn(u32) -> u32>> = match (s.dim, o) {
+        (2, 0) => vec![Box::new(|d| b(1, b(2, d)))],
+        (2, 2) => vec![Box::new(|d| b(1, d))],
+        (3, 0) => vec![Box::new(|d| b(3, b(2, d))), Box::new(|d| b(1, b(3, d))), Box::new(|d| b(1, b(2, d)))],
+        (3, 2) => vec![Box::new(|d| b(1, d)), Box::new(|d| b(3, d))],
+        (3, 3) => vec![Box::new(|d| b(1, d)), Box::new(|d| b(2, d))],
+        _ => return true,
+    };
+    gens.iter().all(|g| {
+        let defined = cell.iter().filter(|&&d| g(d) != 0).count();
+        defined == cell.len() || (defined == 0 && gens.len() > 1)
     })
 }
